@@ -67,9 +67,10 @@ pub fn parse_dxtn<'a>(
         let size = sizes[i];
         // Locator values are untrusted: bounds are checked without overflowing offset + size
         let image_bytes = get_bounded_slice(original_input, offset, size, i)?;
-        let n = blp_header.mipmap_pixels(i);
-        let blocks_n = ((n as f32) / 16.0).ceil() as usize;
-        let mut blocks_size = blocks_n * dxtn.block_size();
+        // A level is stored as whole 4x4 blocks: dimensions round up separately
+        let (width, height) = blp_header.mipmap_size(i);
+        let blocks_n = (width.div_ceil(4) as usize).saturating_mul(height.div_ceil(4) as usize);
+        let mut blocks_size = blocks_n.saturating_mul(dxtn.block_size());
         trace!("Dxtn blocks count: {blocks_n}");
         trace!("Dxtn format: {dxtn:?}, block size: {}", dxtn.block_size());
         trace!(
